@@ -45,6 +45,7 @@ type c19Result struct {
 	Sigs       []string
 	Err        string
 	Warn       string // text of the parse warning, if any
+	Sibling    string // non-empty: working on one step of a pipeline changed another step of it
 }
 
 func (a c19Result) same(b c19Result) bool {
@@ -113,6 +114,30 @@ func c19Work(seed uint64, kp *keys.Pair) c19Result {
 	return c19Life(text, seed, kp)
 }
 
+// c19Poison edits every mutable container below v in place.
+func c19Poison(v any) {
+	switch t := v.(type) {
+	case *ordered.MapSA:
+		if t == nil {
+			return
+		}
+		_ = t.Range(func(_ string, e any) error { c19Poison(e); return nil })
+		t.Set("poisoned by the owner of another step", true)
+	case map[string]any:
+		for _, e := range t {
+			c19Poison(e)
+		}
+		t["poisoned by the owner of another step"] = true
+	case []any:
+		for _, e := range t {
+			c19Poison(e)
+		}
+		if len(t) > 0 {
+			t[0] = "poisoned by the owner of another step"
+		}
+	}
+}
+
 // c19Life runs Parse, Interpolate, matrix interpolation, both marshallers,
 // SignSteps and Verify on one document text.
 func c19Life(text string, seed uint64, kp *keys.Pair) c19Result {
@@ -133,6 +158,62 @@ func c19Life(text string, seed uint64, kp *keys.Pair) c19Result {
 	if err := p.Interpolate(ienv, seed%2 == 0); err != nil {
 		res.Err = "interpolate: " + err.Error()
 		return res
+	}
+	// distinct steps of one pipeline are distinct objects: applying a permutation to one of them leaves the others as
+	// they were (also when the document wrote them with the same anchored subtree)
+	{
+		var all []pipeline.Step
+		var walk func(ss pipeline.Steps)
+		walk = func(ss pipeline.Steps) {
+			for _, st := range ss {
+				all = append(all, st)
+				if g, ok := st.(*pipeline.GroupStep); ok {
+					walk(g.Steps)
+				}
+			}
+		}
+		walk(p.Steps)
+		for ti, st := range all {
+			cs, ok := st.(*pipeline.CommandStep)
+			if !ok || (len(cs.RemainingFields) == 0 && len(cs.Plugins) == 0 && cs.Matrix == nil) {
+				continue
+			}
+			perm := pipeline.MatrixPermutation{}
+			if cs.Matrix != nil {
+				for dname, vs := range cs.Matrix.Setup {
+					if len(vs) > 0 {
+						perm[dname] = vs[len(vs)-1]
+					}
+				}
+			}
+			before := make([]string, len(all))
+			for j, o := range all {
+				if _, isGroup := o.(*pipeline.GroupStep); j != ti && !isGroup {
+					b, _ := safeJSONMarshal(o)
+					before[j] = string(b)
+				}
+			}
+			target := util.DeepCopy(cs) // the step itself is put back afterwards; only its effect on the others matters
+			_ = cs.InterpolateMatrixPermutation(perm)
+			// and the caller edits the untyped data of this one step in place
+			for _, v := range cs.RemainingFields {
+				c19Poison(v)
+			}
+			for _, pl := range cs.Plugins {
+				if pl != nil {
+					c19Poison(pl.Config)
+				}
+			}
+			for j, o := range all {
+				if _, isGroup := o.(*pipeline.GroupStep); j != ti && !isGroup {
+					if b, _ := safeJSONMarshal(o); string(b) != before[j] && res.Sibling == "" {
+						res.Sibling = fmt.Sprintf("InterpolateMatrixPermutation on step %d changed step %d: %s -> %s", ti, j, clip(before[j], 600), clip(string(b), 600))
+					}
+				}
+			}
+			*cs = *target
+			break
+		}
 	}
 	// matrix interpolation on steps that allow a valid permutation
 	allCommandSteps(p.Steps, func(_ string, s *pipeline.CommandStep) {
@@ -514,6 +595,10 @@ func checkC19(c *run.Ctx) {
 				if seq.Err != "" && strings.HasPrefix(seq.Err, "sign: refusing") {
 					c.Count("disjoint_refused_unknown_step", 1)
 				}
+				if seq.Sibling != "" || results[g].Sibling != "" {
+					c.Violation(fmt.Sprintf("disjoint/%d-%d", b, g), map[string]any{"what": "distinct steps of one parsed pipeline are not independent objects: " + seq.Sibling + results[g].Sibling})
+					return
+				}
 				if !seq.same(results[g]) {
 					c.Violation(fmt.Sprintf("disjoint/%d-%d", b, g), map[string]any{"what": "working on distinct objects concurrently gave a different result than sequentially",
 						"concurrent": results[g], "sequential": seq})
@@ -718,6 +803,10 @@ func checkC19(c *run.Ctx) {
 		late := make([]c19Result, n)
 		for i := range jobs {
 			late[i] = c19Life(jobs[i].text, jobs[i].seed, jobs[i].kp)
+			if late[i].Sibling != "" {
+				c.Violation(fmt.Sprintf("history/%d", i), map[string]any{"what": "distinct steps of one parsed pipeline are not independent objects: " + late[i].Sibling, "document": clip(jobs[i].text, 6000)})
+				return
+			}
 		}
 		for i := n - 1; i >= 0; i-- {
 			again := c19Life(jobs[i].text, jobs[i].seed, jobs[i].kp)
